@@ -851,15 +851,42 @@ def reduce_concrete(x, axes, op, init):
     return T(rem, elem, kind=x.kind if x.kind != "bool" else "int") if rem else elem()
 
 
+_tmp_counter = __import__("itertools").count()
+
+
+def lam_depth(t, memo=None):
+    from z3 import is_quantifier, is_app
+    memo = {} if memo is None else memo
+    i = t.get_id()
+    if i in memo:
+        return memo[i]
+    if is_quantifier(t):
+        d = 1 + lam_depth(t.body(), memo)
+    elif is_app(t):
+        d = max([lam_depth(c, memo) for c in t.children()], default=0)
+    else:
+        d = 0
+    memo[i] = d
+    return d
+
+
+def canon_lambda(body_fn):
+    """Lambda over one Int with a *canonical* bound-variable name (by nesting depth), so that structurally equal columns are
+    syntactically equal terms and nested reductions never capture each other's variable"""
+    from z3 import substitute
+    tmp = Int(f"i!tmp{next(_tmp_counter)}")
+    body = body_fn(tmp)
+    v = Int(f"i!red{lam_depth(body)}")
+    return Lambda([v], substitute(body, (tmp, v)))
+
+
 def reduce_sym(ex, x, ax, name, kind="real"):
     """reduction along one symbolic axis: uninterpreted symbol over a Lambda column"""
     f = UF(name, ArrS, IntSort(), RealSort())
     rem = x.axes[:ax] + x.axes[ax + 1:]
 
     def elem(*idx):
-        i = Int(f"i!red{next(ex.fresh)}")
-        col = toR(x.elem(*(idx[:ax] + (i,) + idx[ax:])))
-        return f(Lambda([i], col), toI(x.axes[ax].size))
+        return f(canon_lambda(lambda i: toR(x.elem(*(idx[:ax] + (i,) + idx[ax:])))), toI(x.axes[ax].size))
     return T(rem, elem, kind=kind) if rem else elem()
 
 
@@ -1012,6 +1039,10 @@ PhiInv = UF("PhiInv", RealSort(), RealSort())      # its quantile function
 def _norm(kind):
     def f(ex, path, x, loc=0, scale=1):
         def g(v, mu, sg):
+            std = (mu == 0 and sg == 1) if (isinstance(mu, (int, float)) and isinstance(sg, (int, float))) else False
+            if std:
+                v = toR(v)
+                return {"cdf": lambda: Phi(v), "sf": lambda: 1 - Phi(v), "ppf": lambda: PhiInv(v), "isf": lambda: PhiInv(1 - v)}[kind]()
             v, mu, sg = toR(v), toR(mu), toR(sg)
             if kind == "cdf":
                 return Phi((v - mu) / sg)
